@@ -154,6 +154,7 @@ func main() {
 	bound := ev.Pick(r, 2, 3)
 	_, _, isShard := ev.ShardInfo()
 	if !isShard {
+		recorderPart(r, bound) // Part 0: the dynsampler metrics recorder on the real store (recorder.go)
 		// Part 1: sequential histories
 		depth := ev.Pick(r, 7, 9)
 		for _, k := range kinds {
